@@ -175,7 +175,7 @@ def generate(ctx):
             np_ = npshim.NP()
             ns.update({"np": np_, "Path": PathShim, "xr": values.Rec("xr", Dataset=Dataset)})
             f = harness.define(ctx, ns, MOD, "save_footprints_to_netcdf",
-                               loop_specs={0: TimestampLoop(st), 1: TowerLoop(st), 2: StepLoop(st)})
+                               loop_specs={"outer:timestamps": TimestampLoop(st), "outer:flx_data": TowerLoop(st), "inner:flx_data": StepLoop(st)})
             label = "io.save_footprints_to_netcdf[%s|forcing=%s]" % ("3d" if dim3 else "2d", forcing)
 
             def thunk(run, dim3=dim3, forcing=forcing, f=f, st=st, label=label):
